@@ -292,56 +292,71 @@ class HList:
         raise Hidden()
 
 
-class HMemo:
-    """dict-like memo of opaque size n (symbolic) with a membership oracle for the keys an opcode
-    queries and an explicit write log.  `member(k)` answers come from `oracle` (a list of
-    symbolic bools consumed in order, or a callable); answers are cached so they are consistent."""
+class MemoOracle:
+    """shared pre-state of a memo of opaque size n: consistent answers to 'is key k present?'
+    drawn from a list of (symbolic) bools; both machines' memo views consult the same oracle"""
 
-    def __init__(self, n, oracle=(), value_factory=None):
+    def __init__(self, n, answers):
         self.n = n
-        self._oracle = list(oracle)
-        self._known = []          # [(key, present_bool)]
-        self.writes = []          # [(key, value)]
-        self.new_keys = 0
-        self._factory = value_factory or (lambda k: ("memo", k))
+        self._answers = list(answers)
+        self._known = []
 
-    def _member(self, k):
-        for kk, v in self.writes:
-            if kk == k:
-                return True
+    def present(self, k):
         for kk, p in self._known:
             if kk == k:
                 return p
-        if not self._oracle:
+        if not self._answers:
             raise Hidden()
-        p = bool(self._oracle.pop(0))
+        p = True if self._answers.pop(0) else False
         self._known.append((k, p))
         return p
 
-    def __len__(self):
-        return self.n + self.new_keys
 
-    def __contains__(self, k):
-        return self._member(k)
+class HMemo:
+    """dict-like view of a hidden memo: opaque size, oracle-backed membership, explicit write log"""
 
-    def __getitem__(self, k):
+    def __init__(self, oracle, value_factory):
+        self.oracle = oracle
+        self.writes = []          # [(key, value)] in order
+        self.new_keys = 0
+        self._factory = value_factory
+        self._cache = []
+
+    def _written(self, k):
         for kk, v in reversed(self.writes):
             if kk == k:
-                return v
-        if self._member(k):
-            return self._factory(k)
+                return True, v
+        return False, None
+
+    def __len__(self):
+        return self.oracle.n + self.new_keys
+
+    def __contains__(self, k):
+        return self._written(k)[0] or self.oracle.present(k)
+
+    def __getitem__(self, k):
+        w, v = self._written(k)
+        if w:
+            return v
+        if self.oracle.present(k):
+            for kk, vv in self._cache:
+                if kk == k:
+                    return vv
+            vv = self._factory(k)
+            self._cache.append((k, vv))
+            return vv
         raise KeyError(k)
 
+    def get(self, k, default=None):
+        try:
+            return self[k]
+        except KeyError:
+            return default
+
     def __setitem__(self, k, v):
-        if not self._member_nofail(k):
+        if not (self._written(k)[0] or self.oracle.present(k)):
             self.new_keys += 1
         self.writes.append((k, v))
-
-    def _member_nofail(self, k):
-        try:
-            return self._member(k)
-        except Hidden:
-            raise
 
     def written_keys(self):
         return [k for k, _ in self.writes]
